@@ -119,12 +119,20 @@ Section Sem.
     end.
 
   (* guards short-circuit: the assignment is skipped and the destination keeps its zero value *)
+  Definition sem_step (p : prim) (k : val -> option val) (v : val) : option val :=
+    match v with
+    | VUnset => Some VUnset            (* not modelled stays not modelled *)
+    | _ =>
+      match p with
+      | IfNonEmpty => if is_empty_val v then Some VNil else k v
+      | IfNotNil => match v with VNil => Some VNil | _ => k v end
+      | _ => match sem p v with Some w => k w | None => None end
+      end
+    end.
   Fixpoint sem_seq (ops : list prim) (v : val) : option val :=
     match ops with
     | [] => Some v
-    | IfNonEmpty :: rest => if is_empty_val v then Some VNil else sem_seq rest v
-    | IfNotNil :: rest => match v with VNil => Some VNil | _ => sem_seq rest v end
-    | p :: rest => match sem p v with Some w => sem_seq rest w | None => None end
+    | p :: rest => sem_step p (sem_seq rest) v
     end.
 
   Definition find_entry (es : mirror) (leaf : path) : option entry :=
